@@ -49,7 +49,8 @@ BOUNDS = {
              "sub-pixels of one data pixel spread over triangles touching 7 (sub 2) / 13 (sub 3) distinct vertices; histories on one mapper object: "
              "pixel_signals_from(signal_scale in {1,2}) before / between pix_sub_weights, mapping_matrix, unique_mappings in 3 listed orders, adapt data "
              "symbolic (rectangular, and Delaunay with one data pixel) or from a concrete list (Delaunay with several data pixels); Delaunay source planes "
-             "(vertices and symbolic positions) also scaled by the dyadic factors 2^-12 and 2^-20 (thorough: 2^-8 as well)",
+             "(vertices and symbolic positions) also scaled by the dyadic factors 2^-12 and 2^-20 (thorough: 2^-8 as well); Delaunay vertices supplied as ndarray or as python list (listed cases); one Delaunay and one rectangular case with "
+             "sub-size 4",
     "thorough": "same scheme with sub sizes 1..4, meshes up to 7x8, masks of 2x3 by forking, vertex set v9, two free points per Delaunay case, symbolic-box "
                 "mapper case with a free third point, every assignment of the extremes for 3 points, index tables with up to 10 mappings; neighbour histories: "
                 "pairs 3..8, equal-pixel triples 3..10, singles 3..12, triples of Delaunay sets",
@@ -821,7 +822,7 @@ def _dist2_lin(v, p):
     return v[0] * v[0] + v[1] * v[1] - 2 * (v[0] * p[0] + v[1] * p[1])
 
 
-def body_del(inp, mask, sub, verts, order=None, scale=1.0, cexp=0, **_):
+def body_del(inp, mask, sub, verts, order=None, scale=1.0, cexp=0, vlist=False, **_):
     import autoarray as aa
     m, os_, sub_list, ref_slim, ref_frac = _setup(mask, sub)
     D, N = len(sub_list), len(ref_slim)
@@ -832,9 +833,14 @@ def body_del(inp, mask, sub, verts, order=None, scale=1.0, cexp=0, **_):
     vs = _verts(verts, symbolic, cexp)
     P = len(vs)
     A, E = {}, {}
-    mesh = aa.Mesh2DDelaunay(values=np.array(VERTS[verts], dtype=float) * 2.0 ** -cexp)
+    supplied = np.array(VERTS[verts], dtype=float) * 2.0 ** -cexp
+    # vlist: the public list-of-vertices variant of the constructor instead of an ndarray
+    mesh = aa.Mesh2DDelaunay(values=[[float(a), float(b)] for (a, b) in supplied] if vlist else supplied)
     tri = mesh.delaunay
-    simplices = [[int(a) for a in row] for row in tri.simplices]
+    # source pixel p is the p-th supplied vertex; the triangles of the reference come from an independent triangulation of the supplied set
+    A["mesh_vertices_in_supplied_order"] = hx.attempt(lambda: np.asarray(mesh.array if hasattr(mesh, "array") else mesh, dtype=float))
+    E["mesh_vertices_in_supplied_order"] = supplied
+    simplices = [[int(a) for a in row] for row in _tri(verts, cexp).simplices]
     if symbolic:
         chosen = [int(t) for t in inp["simplex"]][:N]
         mesh.__dict__["delaunay"] = _DelaunayStub(tri, chosen)
@@ -916,7 +922,7 @@ def body_del(inp, mask, sub, verts, order=None, scale=1.0, cexp=0, **_):
     return A, E
 
 
-def case_del(ctx, mshape, sub, verts, plan, mask=None, span=4.0, order=None, scale=1.0, adapt=None, cexp=0):
+def case_del(ctx, mshape, sub, verts, plan, mask=None, span=4.0, order=None, scale=1.0, adapt=None, cexp=0, vlist=False):
     """plan: per sub-pixel (cyclic) either "free" (fork over every simplex and 'outside') or a simplex index / -1 it is pinned to"""
     mask = _mask_from(ctx, mshape, mask)
     D = int((~mask).sum())
@@ -971,7 +977,7 @@ def case_del(ctx, mshape, sub, verts, plan, mask=None, span=4.0, order=None, sca
     ad = _adapt_input(ctx, adapt, int(np.prod(mshape)))
     if ad is not None:
         inputs["adapt"] = ad
-    kw = {"mask": mask.tolist(), "sub": sub, "verts": verts, "order": order, "scale": scale, "cexp": cexp}
+    kw = {"mask": mask.tolist(), "sub": sub, "verts": verts, "order": order, "scale": scale, "cexp": cexp, "vlist": vlist}
     hx.run_body(ctx, body_del, inputs, kw, tol=TOLS, validate_every=8, groups=lambda k: "e2e" if k.startswith("e2e") else None)
 
 
@@ -1135,6 +1141,16 @@ def cases(tier):
                dict(mshape=[1, 2], sub="a", verts="v6", plan=[0, 4, 2, 3, -1], mask=M12, cexp=8)]
     for c in sc:
         out.append(("case_del", c))
+    # --- public variants: vertices supplied as a python list; sub-size 4 (the largest of the property's range) also in the quick tier
+    var = [dict(mshape=[1, 1], sub="c", verts="v5", plan=["free"], mask=[[False]], vlist=True),
+           dict(mshape=[1, 2], sub="a", verts="v7", plan=[0, "free", 2, 3, 5], mask=M12, vlist=True),
+           dict(mshape=[1, 2], sub="f", verts="v5", plan=[0, 1, 2, 0, 1, 2, "free", 2, 1, 0, 2, 1, 0, 1, 2, 0, 1], mask=M12)]
+    if not q:
+        var += [dict(mshape=[1, 2], sub="b", verts="v6", plan=["free", 0, 1, 3, 2], mask=M12, vlist=True, cexp=12)]
+    for c in var:
+        out.append(("case_del", c))
+    out.append(("case_rect", dict(mshape=[1, 2], sub="f", H=3, W=3, box="A", anchors=[15, 3, 16, 0],
+                                  regions=[[0, 0, 0, 0], [1, 1, 2, 2], [2, 2, 1, 1], [0, 0, 1, 1], [1, 1, 0, 0]], mask=M12)))
     # --- data pixels whose sub-pixels touch many distinct vertices (fan around a degree-6 vertex): the sparse encoding needs more
     #     than sub_size**2 + 2 columns (7 of fan7 for sub 2; 13 of fan14 for sub 3)
     wide = [dict(mshape=[1, 1], sub="e", verts="fan7", plan="spread", mask=[[False]]),
